@@ -190,7 +190,7 @@ func runNative(w *World, dir string, p *ssa.Package, jobs []*replayJob, hfiles m
 	os.WriteFile(ovPath, ob, 0644)
 	bin := filepath.Join(work, "replay.test")
 	env := append(os.Environ(), "GOFLAGS=-mod=mod", "GOPROXY=off", "GOSUMDB=off", "GOTOOLCHAIN=local")
-	build := exec.Command("go", "test", "-c", "-o", bin, "-tags", "verif", "-vet=off", "-overlay", ovPath, "./"+dir)
+	build := exec.Command("go", "test", "-c", "-o", bin, "-tags", "verif", "-vet=off", "-ldflags=-checklinkname=0", "-overlay", ovPath, "./"+dir)
 	build.Dir = *flagRepo
 	build.Env = env
 	if outb, err := build.CombinedOutput(); err != nil {
